@@ -1,8 +1,55 @@
 package client
 
+import (
+	tmtypes "github.com/teleport-network/teleport/x/xibc/clients/light-clients/tendermint/types"
+	tsstypes "github.com/teleport-network/teleport/x/xibc/clients/tss-client/types"
+	"github.com/teleport-network/teleport/x/xibc/core/client/types"
+	rt "github.com/teleport-network/teleport/zzverifrt"
+)
+
 // VerifC15ClientGenesisImport (shared with the C13 check): InitGenesis of the client sub-module on a genesis state that was
 // exported from a reachable state and passes validation never panics (obligation G2-import-does-not-panic).
 func VerifC15ClientGenesisImport() {
 	c13AssumeNoSlash = true
 	c13ClientGenesis()
+}
+
+// VerifC15ValidatedClientGenesisImport: a genesis file is written by hand or by a tool, not only exported. For ANY client
+// genesis state GenesisState.Validate accepts - zero or one client (TSS or Tendermint) with zero or one consensus state and
+// metadata entry, zero or one relayer with arbitrary strings, an arbitrary native chain name - InitGenesis does not panic.
+func VerifC15ValidatedClientGenesisImport() {
+	rt.Opt("structured-keys")
+	rt.RegisterInterfaces(types.RegisterInterfaces)
+	rt.RegisterInterfaces(tsstypes.RegisterInterfaces)
+	rt.RegisterInterfaces(tmtypes.RegisterInterfaces)
+	k := genesisKeeper()
+	gs := types.GenesisState{NativeChainName: rt.Str("nativeChainName")}
+	if rt.Bool("hasClient") {
+		chain := rt.StrN("chainName", 3)
+		cs, cons := c13Client([]int{0, 2}[rt.IntRange("clientType", 0, 1)], "genesis")
+		gs.Clients = append(gs.Clients, types.NewIdentifiedClientState(chain, cs))
+		if rt.Bool("hasConsensusState") {
+			h := types.Height{RevisionNumber: rt.U64("consensus.revision"), RevisionHeight: rt.U64("consensus.height")}
+			rt.Assume(h.RevisionNumber <= 40 && h.RevisionHeight >= 1 && h.RevisionHeight <= 40) // no 0x2F byte: the known finding H3 is about exports
+			gs.ClientsConsensus = append(gs.ClientsConsensus, types.NewClientConsensusStates(chain, []types.ConsensusStateWithHeight{types.NewConsensusStateWithHeight(h, cons)}))
+		}
+		if rt.Bool("hasMetadata") {
+			gs.ClientsMetadata = append(gs.ClientsMetadata, types.NewIdentifiedGenesisMetadata(chain, []types.GenesisMetadata{types.NewGenesisMetadata(rt.Bytes("metadata.key"), rt.Bytes("metadata.value"))}))
+		}
+	}
+	if rt.Bool("hasRelayer") {
+		r := types.IdentifiedRelayer{Address: rt.Str("relayer.address")}
+		if rt.Bool("relayer.hasChain") {
+			r.Chains = []string{rt.Str("relayer.chain")}
+		}
+		if rt.Bool("relayer.hasCounterparty") {
+			r.Addresses = []string{rt.Str("relayer.counterparty")}
+		}
+		gs.Relayers = append(gs.Relayers, r)
+		rt.Reach("genesis-relayer")
+	}
+	rt.Assume(gs.Validate() == nil)
+	rt.Reach("validated")
+	dst := rt.EmptyCtx()
+	rt.NoPanic("P8-validated-client-genesis-is-imported-without-panic", func() { InitGenesis(dst, k, gs) })
 }
